@@ -75,8 +75,9 @@ def main(argv):
                     results.append(dict(prop=prop, name=m['name'], kind=m['kind'], ok=ok, detail=detail, wall=round(time.time() - t0, 1)))
                     print('  %-50s %s %s' % (m['name'], 'ok ' if ok else 'FAIL', detail), flush=True)
                 finally:
+                    # undo in reverse order (an `also` entry may name the same file as the main replacement)
+                    for p2, o2 in reversed(extra_saved): open(p2, 'w').write(o2)
                     open(path, 'w').write(orig)
-                    for p2, o2 in extra_saved: open(p2, 'w').write(o2)
     finally:
         shutil.rmtree(scratch, ignore_errors=True)
     os.makedirs(os.path.join(VERIF, 'selftest'), exist_ok=True)
